@@ -36,6 +36,10 @@ def run_case(prop, case, timeout_s=30.0, keep_log=False):
             res.violation = prop.run(case, res)
         finally:
             signal.setitimer(signal.ITIMER_REAL, 0)
+    except common.Inconclusive:
+        signal.setitimer(signal.ITIMER_REAL, 0)
+        res.probes.hit('inconclusive')
+        res.violation = None
     except common.RomUndefined as e:
         signal.setitimer(signal.ITIMER_REAL, 0)
         res.violation = Violation('rom_contents', 'word_undefined_in_derived_block',
